@@ -304,8 +304,9 @@ pub fn run_k16(tier: &str, seed: u64, out: &str) {
                 let op = em.hir.operations.iter().find(|o| mir_rust::sanitize_filename(&o.file_name()) == *e);
                 let shadows = op.map(|o| o.parameters.iter().any(|p| !p.optional && p.name.to_rust_ident().0 == "client")).unwrap_or(false);
                 let mut trig = vec![];
-                if shadows { trig.push("requiredInputNamedClient".to_string()); }
                 let first = errs.first().cloned().unwrap_or_default();
+                // the recorded behaviour: the client method is called on the shadowing local (`no method named .. found for ..`)
+                if shadows && first.contains("no method named") { trig.push("requiredInputNamedClient".to_string()); }
                 if first.contains("expected `Option<") && op.map(|o| o.parameters.iter().any(|p| reaches_forced_option_field(&em.hir, &p.ty, 0))).unwrap_or(false) { trig.push("forcedOptionFieldInExample".to_string()); }
                 rep.oracle_fail("exampleDoesNotCompile", trig, &case_text(c), &format!("examples/{e}.rs: {first}"));
             }
